@@ -276,6 +276,18 @@ t("C18", "inject-mouse-only-while-reporting", "simulation.go", "\tev := NewEvent
 t("C19", "page-resized-only-while-running", "wscreen.go", "\tjs.Global().Call(\"resize\", w, h)\n\tt.w, t.h = w, h", "\tif t.running {\n\t\tjs.Global().Call(\"resize\", w, h)\n\t}\n\tt.w, t.h = w, h", "page-resized-in-any-state")
 t("C20", "orientation-change-not-announced", BL, "\t\tb.orient = orient\n\t\tb.changed = true\n\t\tb.PostEventWidgetContent(b)", "\t\tb.orient = orient\n\t\tb.changed = true\n\t\tb.layout()", "SetOrientation:change-is-announced")
 
+# ---------------------------------------------------------------- round 12
+t("C01", "colour-cache-pre-seeded", TS, "\t\tt.colors[Color(i)|ColorValid] = Color(i) | ColorValid\n\t}\n", "\t\tt.colors[Color(i)|ColorValid] = Color(i) | ColorValid\n\t}\n\tif nColors == 8 {\n\t\tfor i := 0; i < 8; i++ {\n\t\t\tt.colors[Color(i+8)|ColorValid] = Color(i) | ColorValid\n\t\t}\n\t}\n", "identity-or-FindColor")
+t("C04", "mouse-flags-remembered-raw", TS, "\tif !flagsPresent {\n\t\tf = MouseMotionEvents | MouseDragEvents | MouseButtonEvents\n\t}\n\n\tt.Lock()\n\tt.mouseFlags = f\n", "\traw := f\n\tif !flagsPresent {\n\t\tf = MouseMotionEvents | MouseDragEvents | MouseButtonEvents\n\t}\n\n\tt.Lock()\n\tt.mouseFlags = raw\n", "recorded-flags-are-the-applied-ones")
+t("C05", "drain-flushes-type-ahead", "nonblock_unix.go", "unix.IoctlSetTermios(fd, unix.TCSETSW, tio)", "unix.IoctlSetTermios(fd, unix.TCSETSF, tio)", "type-ahead-kept")
+t("C06", "simulation-init-fails-before-its-queues", "simulation.go", "\ts.evch = make(chan Event, 10)\n\ts.quit = make(chan struct{})\n\ts.fillchar = 'X'", "\tif GetEncoding(s.charset) == nil {\n\t\treturn ErrNoCharset\n\t}\n\ts.evch = make(chan Event, 10)\n\ts.quit = make(chan struct{})\n\ts.fillchar = 'X'", "made-before-any-return")
+t("C13", "column-advanced-by-bytes-written", TS, "\tt.writeString(str)\n\tt.cx += width\n", "\tt.writeString(str)\n\tt.cx += len(str)\n", "column-advances-by-the-cell-width")
+t("C13", "locked-cells-skipped-before-drawcell", TS, "\t\tfor x := 0; x < t.w; x++ {\n\t\t\twidth := t.drawCell(x, y)\n", "\t\tfor x := 0; x < t.w; x++ {\n\t\t\tif !t.cells.Dirty(x, y) && x%2 == 1 {\n\t\t\t\tcontinue\n\t\t\t}\n\t\t\twidth := t.drawCell(x, y)\n", "column-loop-steps-by-drawCell")
+t("C18", "injected-control-bytes-as-runes", "simulation.go", "\t\tif b[0] >= ' ' && b[0] <= 0x7F {\n\t\t\t// printable ASCII", "\t\tif b[0] <= 0x7F {\n\t\t\t// printable ASCII", "raw-byte-rune-only-if-printable")
+t("C18", "showcursor-short-cut", "simulation.go", "\ts.Lock()\n\ts.cursorx, s.cursory = x, y\n\ts.showCursor()\n\ts.Unlock()", "\ts.Lock()\n\tif s.cursorx == x && s.cursory == y {\n\t\ts.Unlock()\n\t\treturn\n\t}\n\ts.cursorx, s.cursory = x, y\n\ts.showCursor()\n\ts.Unlock()", "visibility-recomputed-on-every-call")
+t("C20", "watcher-copy-kept", "views/widget.go", "\tww.Unlock()\n\tfor watcher := range watcherCopy {", "\tww.watchers = watcherCopy\n\tww.Unlock()\n\tfor watcher := range watcherCopy {", "no-delivery-state-kept")
+t("C20", "negative-extent-for-the-last-child", BL, "\t\tc.view.Resize(x, y, cw, h)\n", "\t\tif c == b.cells[len(b.cells)-1] {\n\t\t\tcw = -1\n\t\t}\n\t\tc.view.Resize(x, y, cw, h)\n", "child-extents-computed")
+
 # drop the placeholder teeth that were only notes
 T[:] = [x for x in T if not x["Expect"].startswith("zzz-")]
 
